@@ -282,6 +282,10 @@ namespace GeographicLib {
     if (!(_height & 1))
       // This is so that latitude grid includes the equator.
       throw GeographicErr("Raster height is even " + _filename);
+    if (_width > (1 << 30) || _height > (1 << 30))
+      // rawval and CacheArea do their index arithmetic (2 * (_height - 1) - iy,
+      // ix + _width) in int
+      throw GeographicErr("Raster size too large " + _filename);
     _file.seekg(0, ios::end);
     if (!_file.good() ||
         _datastart + pixel_size_ * _swidth * (unsigned long long)(_height) !=
